@@ -406,6 +406,8 @@ class History:
             d["expiry"] = self.expiry
         if getattr(self, "late", None):
             d["late"] = self.late
+        if getattr(self, "search", None):
+            d["search"] = self.search
         if extra:
             d.update(extra)
         return d
@@ -1400,6 +1402,67 @@ class History:
         finally:
             w.close()
 
+    def run_identifier_search(self, unknown_cid: int):
+        """An off-path party that knows nothing (no key, no identifier, not even a circuit id in use) sends a plaintext
+        CREATED for every 16-bit identifier to a relay that has an extension pending.  Nothing may change."""
+        from ipv8.messaging.anonymization.payload import CellPayload, CreatedPayload
+        _random.seed(self.sc_seed)
+        self.w = World(4, self.rng)
+        w = self.w
+        try:
+            self.lines.append("reset 4")
+            self.expect.append({"sends": [], "tables": None, "log": [], "step": -1, "kind": "reset"})
+            saved = {j: w.ov(1).candidates.pop(w.nodes[j].my_peer, None) for j in (2, 4)}
+            key = self.act_open((1, 2, 4))
+            for j, fl in saved.items():
+                if fl is not None:
+                    w.ov(1).candidates[w.nodes[j].my_peer] = fl
+            if key is None:
+                return
+            dst = lambda p: w.addr_idx.get(p.dst)      # noqa: E731
+            self.deliver_where(lambda h, p: dst(p) == 3 and h[3] == 1 and h[5] == 2)
+            self.deliver_where(lambda h, p: dst(p) == 1 and h[5] == 3)
+            self.deliver_where(lambda h, p: dst(p) == 3 and h[1] == "cell" and h[3] == 0)
+            if not any(k.startswith("create:") for k in w.ov(3).request_cache._identifiers):
+                self.ctx.count("identifier-search:setup-incomplete")
+                return
+            att = w.n + 1
+            ser = w.ov(att).serializer
+            before = w.identity(3)
+            snap_before = w.snapshot(3)
+            src = w.addr(att)
+            w.begin()
+            hit = None
+            for ident in range(65536):
+                pl = CreatedPayload(unknown_cid, ident, b"\x01" * 32, b"\x07" * 32, b"")
+                cell = CellPayload(unknown_cid, bytes([pl.msg_id]) + ser.pack_serializable(pl)[4:], True, False)
+                try:
+                    w.nodes[3].endpoint.notify_listeners((src, cell.to_bin(w.prefix)))
+                except Exception:
+                    w.raised += 1
+                if w.ov(3).relay_from_to or len(w.ov(3).request_cache._identifiers) != len(snap_before["Q"]) + len(snap_before["P"]):
+                    hit = ident
+                    break
+            w.drain()
+            self.ctx.count("identifier-search:cells", (hit + 1) if hit is not None else 65536)
+            changed = w.identity(3) != before or w.step_sends
+            if changed:
+                self.fail("TunnelCommunity.on_created:extension-completed-by-identifier-search",
+                          f"a plaintext CREATED naming the unknown circuit id {unknown_cid}, sent by an outsider without any key, "
+                          f"hit the pending 16-bit identifier after {(hit if hit is not None else 65535) + 1} cells: node 3 turned "
+                          f"the exit entry of circuit {key[1]} into a relay pair and sent {[w.header(p)[:3] for p in w.step_sends]}",
+                          {"unknown_cid": unknown_cid, "ident": hit})
+            # the model sees only the cell that hit (every other one is `created_not_outstanding_noop` on both sides)
+            if hit is not None:
+                self.record(f"fc 3 {w.aidx(src)} {unknown_cid} 1 0 [] created:{hit + 1}:1:{att}:0", 3, "forge-created-search",
+                            True, ("search", bool(changed)))
+            if not self.failed:
+                self.flush()
+                self.final_probe()
+            self.ctx.count("identifier-search:histories")
+        finally:
+            w.close()
+
     def run_opening(self, seq, hops: int):
         """Small-scope exhaustive scenario: two circuits of different originators end at the SAME exit node; `seq`
         interleaves, per circuit, two first data cells (D) with the completion of its exit socket's IPv4 (4) and
@@ -1773,6 +1836,15 @@ def run_reuses(ctx: Ctx, use_model: bool):
                 fresh = [f for f in ctx.failures if not f["signature"].endswith("third-party-data-delivered-while-extending")]
                 if len(fresh) >= 3 or len(ctx.disagreements) >= 3:
                     return
+    for _ in range(ctx.scale(1, 3)):
+        h = History(ctx, ctx.rng.getrandbits(48))
+        h.search = {"unknown_cid": 0xDEAD0000 + ctx.rng.getrandbits(12)}
+        h.run_identifier_search(h.search["unknown_cid"])
+        if use_model and not h.failed:
+            compare(ctx, h, ctx.driver().batch(h.lines))
+        fresh = [f for f in ctx.failures if not f["signature"].endswith("third-party-data-delivered-while-extending")]
+        if len(fresh) >= 3 or len(ctx.disagreements) >= 3:
+            return
     k = 0
     for delay in (0, 5):
         for when in ("at-once", "after-ready"):
@@ -1809,7 +1881,10 @@ def search(ctx: Ctx, reason: str):
 def replay(ctx: Ctx, rec: dict):
     r = rec.get("replay", rec)
     h = History(ctx, r["sc_seed"], stop_at=None, verbose=True, do_sweep=bool(r.get("sweep")))
-    if r.get("late"):
+    if r.get("search"):
+        h.search = r["search"]
+        h.run_identifier_search(r["search"]["unknown_cid"])
+    elif r.get("late"):
         h.late = r["late"]
         h.run_late_created(**r["late"])
     elif r.get("expiry"):
